@@ -724,6 +724,21 @@ func genC04(g *G) {
 			// order, down to a few entries or to nothing.  Only a long run of Deletes after growth takes the tree
 			// under the map through its delete-side whole-tree rebuild (size below an eighth of the high-water
 			// mark); the contents are observed after every Delete.
+			// "touch every present key after a shrink" (round-6 seeds): delete most, but not enough for the
+			// delete-side rebuild (the tree under the map rebuilds below an eighth of its high-water mark), so
+			// that surviving keys lie deeper than the depth limit of the shrunk tree; then Set every survivor
+			if c%6 == 3 {
+				id := x.ids[0]
+				ks := append([]int(nil), x.keys[id]...)
+				g.R.Shuffle(len(ks), func(a, b int) { ks[a], ks[b] = ks[b], ks[a] })
+				cut := len(ks) * (50 + g.Intn(36)) / 100
+				for _, k := range ks[:cut] {
+					x.del(0, k)
+				}
+				for _, k := range ks[cut:] {
+					x.set(0, k)
+				}
+			}
 			if c%6 == 0 {
 				id := x.ids[0]
 				leave := g.Intn(4)
